@@ -271,7 +271,7 @@ def centertype_case(ctx, rng, wd, i):
             fr["types"][: K] = np.arange(1, K + 1)          # every species present
         frames.append(fr)
     ts = np.cumsum(rng.integers(1, 5000, size=nframes)) - (1 if rng.random() < 0.3 else 0)
-    order = str(rng.choice(["sorted", "reversed", "random"]))
+    order = str(rng.choice(["sorted", "reversed", "random", "mixed"]))
     text, _ = gd.emit(rng, frames, ts, order, int(rng.integers(0, 3)), False, "pp pp pp", str(rng.choice(["single", "double", "tab"])))
     path = os.path.join(wd, "mol.dump")
     with open(path, "w") as f:
